@@ -114,8 +114,17 @@ def prepare_files(ctx, case):
     paths = {"plain": ctx.tmp(".gff"), "gz": ctx.tmp(".gff.gz"), "srcdb": ctx.tmp(".src.db"), "ref": ctx.tmp(".ref.db")}
     with open(paths["plain"], "w", encoding="utf-8", newline="") as fh:
         fh.write(text)
-    with gzip.open(paths["gz"], "wb") as fh:
-        fh.write(text.encode("utf-8"))
+    raw = text.encode("utf-8")
+    if len(raw) > 40 and len(text) % 3 == 0:
+        # a multi-member gzip file (as produced by appending: gzip -c x >> a.gz, bgzip, cat a.gz b.gz)
+        cut = raw.rfind(b"\n", 0, len(raw) // 2) + 1
+        with gzip.open(paths["gz"], "wb") as fh:
+            fh.write(raw[:cut])
+        with gzip.open(paths["gz"], "ab") as fh:
+            fh.write(raw[cut:])
+    else:
+        with gzip.open(paths["gz"], "wb") as fh:
+            fh.write(raw)
     return text, lines, paths
 
 
@@ -373,6 +382,14 @@ def annotation(rng, nmax=25, lineno=False, sparse=False):
                 r["start"], r["end"] = r["end"], r["start"]
         if lineno:
             r["attrs"].append(["lineno", [str(i)]])
+    if not sparse and not D["repeated"] and recs and rng.random() < 0.3:
+        # a comma list written with a blank after the comma ("kinase, putative"): legitimate text whose parse depends on
+        # the mode (inference vs given dialect); only cross-form / cross-checklines agreement is asked of it here
+        r = recs[rng.randrange(len(recs))]
+        cands = [kv for kv in r["attrs"] if len(kv[1]) == 1 and kv[0] not in F.SINGLE]
+        if cands:
+            kv = cands[rng.randrange(len(cands))]
+            kv[1] = [kv[1][0], " putative"]
     if lineno and recs:
         # keep the uniform regime: line 1 must carry every key (lineno is on every line, last)
         pass
